@@ -1459,6 +1459,11 @@ class CodeGenerator(NodeVisitor):
         will be evaluated at runtime. Any other exception will also be
         evaluated at runtime for easier debugging.
         """
+        # Whether to escape is only known at runtime inside an
+        # ``{% autoescape expr %}`` block.
+        if frame.eval_ctx.volatile:
+            raise nodes.Impossible()
+
         const = node.as_const(frame.eval_ctx)
 
         if frame.eval_ctx.autoescape:
